@@ -1983,6 +1983,9 @@ def hyperboloid_coords(points, column_vectors=False):
     dim = proj_coords.shape[-1]
     hyperbolized = utils.normalize(proj_coords, minkowski(dim))
 
+    # v and -v are the same point: the model is the upper sheet
+    hyperbolized = hyperbolized * np.where(hyperbolized[..., :1] < 0, -1, 1)
+
     if column_vectors:
         hyperbolized = hyperbolized.swapaxes(-1, -2)
 
